@@ -145,8 +145,8 @@ REG = {
         "partial": "'triggers no Spark job' is runtime behaviour: observed through the status tracker, not provable",
     },
     "C18": {
-        "modules": ["VProofs.Props.C18"],
-        "theorems": thms("C18", ["C18_small", "C18_sound", "C18_lands"]),
+        "modules": ["VProofs.Props.C18", "VProofs.Props.C18Pandas"],
+        "theorems": thms("C18", ["C18_small", "C18_sound", "C18_lands", "C18_pandas"]),
         "runners": ["engine", "sampled"],
     },
     "C19": {
